@@ -40,6 +40,9 @@ fn kinds() -> Vec<(String, BVal, Exp)> {
     for e in [0x00u8, 0x07, 0x0F, 0x17, 0x1D, 0x24, 0x2A, 0x2B] { v.push((format!("BrtCellError {e:#x}"), BVal::Err(e), Exp::Val(Data::Error(err_of(e))))); }
     v.push(("BrtFmlaNum".into(), BVal::FmlaNum(2.5, ONE.to_vec()), Exp::Numeric(2.5, "float")));
     v.push(("BrtFmlaString".into(), BVal::FmlaStr("r\u{e9}s".into(), ONE.to_vec()), Exp::Val(Data::String("r\u{e9}s".into()))));
+    // zero-length strings are values too: a formula caching "" reads exactly like a constant ""
+    v.push(("BrtCellSt empty".into(), BVal::St(String::new()), Exp::Val(Data::String(String::new()))));
+    v.push(("BrtFmlaString empty".into(), BVal::FmlaStr(String::new(), ONE.to_vec()), Exp::Val(Data::String(String::new()))));
     v.push(("BrtFmlaBool".into(), BVal::FmlaBool(true, ONE.to_vec()), Exp::Val(Data::Bool(true))));
     v.push(("BrtFmlaError div0".into(), BVal::FmlaErr(0x07, ONE.to_vec()), Exp::Val(Data::Error(CellErrorType::Div0))));
     v.push(("BrtFmlaError na".into(), BVal::FmlaErr(0x2A, ONE.to_vec()), Exp::Val(Data::Error(CellErrorType::NA))));
@@ -85,6 +88,7 @@ fn build(ch: &mut Chooser, anchor: (u32, u32), positions: &[(u32, u32)], thoroug
     if thorough && ch.flag("huge-ignorable-record") { items.push(BItem::Raw(0x0C01, vec![0x33; 2_097_152])); }
     let mut sheet = BSheet::new("S1", items.clone());
     sheet.preamble = !ch.flag("no-optional-blocks-before-sheetdata");
+    if ch.flag("cell-fPhShow-bit-set") { sheet.cell_flags = 1; }
     let book = BBook { sheets: vec![sheet, BSheet::new("Other", vec![BItem::Cell { row: 3, col: 2, style: 0, val: BVal::Real(9.0) }])], sst: SST.iter().map(|s| s.to_string()).collect(), ..Default::default() };
     let bytes = write(&book, if ch.flag("zip-stored") { Method::Stored } else { Method::Deflated });
     let d = json!({"cells": desc, "stream": items.iter().map(|i| match i { BItem::Cell { row, col, val, .. } => format!("cell({row},{col}) {}", format!("{val:?}").chars().take(24).collect::<String>()), BItem::Raw(t, d) => format!("rec {t:#06x} len {}", d.len()) }).collect::<Vec<_>>()});
